@@ -681,6 +681,9 @@ class ttensor:
         else:
             Y = HnT.transpose().dot(XnT)
 
+        # The eigensolvers need floating point (integer core and factors stay integer)
+        Y = Y.astype(float)
+
         # TODO: Lifted from tensor, consider common location
         if r < Y.shape[0] - 1:
             w, v = scipy.sparse.linalg.eigsh(Y, r)
